@@ -127,9 +127,6 @@ func judge(c *Case) (sig, detail string) {
 		}
 		for _, q := range []struct{ src, want string }{{"w.val", uval}, {"w.err", "nil"}, {"w.or(99)", uval}, {"w.abandon", uval}, {"w.err?", "false"},
 			{"w.catch(ValueErr){|e| 5}.val", uval}, {"w.ignore(ValueErr).val", uval}, {"w.catch(Err){|e| 5}.A", "[" + uval + ", nil]"}} {
-			if uval == "nil" && q.src == "w.or(99)" {
-				continue // `or` of a nil value is not pinned down by the statement
-			}
 			if got := w.ins(q.src); got != q.want {
 				return fail(q.src, got, q.want)
 			}
@@ -161,7 +158,13 @@ func judge(c *Case) (sig, detail string) {
 	qs := []struct{ src, want string }{{"w.val", "nil"}, {"w.or(99)", "99"}, {"w.val?", "false"}, {"w.err?", "true"},
 		{"w.err.type == " + uerrKind, "true"}, {"w.catch(" + uerrKind + "){|e| 5}.A", "[5, nil]"}, {"w.catch(" + other + "){|e| 5}.err?", "true"},
 		{"w.catch(" + other + "){|e| 5}.err.type == " + uerrKind, "true"},
-		{"w.ignore(" + uerrKind + ").A", "[nil, nil]"}, {"w.ignore(" + other + ").err?", "true"}, {"w.catch(" + uerrKind + "){|e| e.msg}.val == w.err.msg", "true"}}
+		{"w.ignore(" + uerrKind + ").A", "[nil, nil]"}, {"w.ignore(" + other + ").err?", "true"}, {"w.catch(" + uerrKind + "){|e| e.msg}.val == w.err.msg", "true"},
+		{"w.catch(" + uerrKind + "){|e| nil}.or(7)", "nil"}, {"w.ignore(" + uerrKind + ").or(7)", "nil"}, {"w.ignore(" + uerrKind + ").err?", "false"}}
+	if uerrKind != "Err" {
+		// catch / ignore act iff the kind matches: an ancestor of the raised kind is not a match
+		qs = append(qs, []struct{ src, want string }{{"w.catch(Err){|e| 5}.err?", "true"}, {"w.ignore(Err).err?", "true"}, {"w.catch(Obj){|e| 5}.err.type == " + uerrKind, "true"},
+			{"w.ignore(Err).abandon.try.err.type == " + uerrKind, "true"}}...)
+	}
 	if !strings.ContainsAny(uerrMsg, "\"\\") {
 		qs = append(qs, struct{ src, want string }{"w.err.msg", fmt.Sprintf("%q", uerrMsg)})
 	}
